@@ -216,6 +216,87 @@ def form_worker(args):
     return res
 
 
+# ------------------------------------------------------------------ (c) object generation at one rule vs the Lean model
+def objgen_eval(name, r, N):
+    """one union / product rule form: the real `get_objects` on brute-force children (dictionaries in a fixed order) against
+    the Lean model of get_sub_objects + _ensure_level_objects (Driver/ObjGen: same dictionary, same order)"""
+    from comb_spec_searcher.strategies.constructor import CartesianProduct, DisjointUnion
+
+    con = r.constructor
+    if type(con) not in (DisjointUnion, CartesianProduct):
+        return None
+    o = {"form": name, "rule": f"{type(r).__name__} {r.comb_class!r} -> {r.children!r} via {r.strategy!r}", "kind": type(con).__name__}
+    ids = [dict() for _ in r.children]
+    tables = [dict() for _ in r.children]
+    for j, ch in enumerate(r.children):
+        for s in range(N + 1):
+            d = {}
+            for k, ws in true_objects(ch, s).items():
+                d[k] = [W(w) for w in ws]
+                for w in ws:
+                    ids[j].setdefault(str(w), len(ids[j]))
+            tables[j][s] = d
+
+    def provider(j):
+        return lambda s: tables[j][s]
+
+    r.subobjects = tuple(provider(j) for j in range(len(r.children)))
+    r.objects_cache = []
+    tabs = "#".join("+".join(f"{s}@" + "/".join(".".join(map(str, k)) + "=" + ",".join(str(ids[j][str(w)]) for w in ws)
+                                                 for k, ws in tables[j][s].items()) for s in range(N + 1))
+                    for j in range(len(r.children)))
+    o["line"] = f"{N} {specrun.rule_record(r, 0, lambda c: 0, N)} {tabs}"
+    py = []
+    for n in range(N + 1):
+        try:
+            d = r.get_objects(n)
+        except AssertionError:
+            py.append("none")
+            continue
+        ents = []
+        for key, objs in d.items():
+            items = []
+            for ob in objs:
+                parts = r.forward_map(ob)
+                if type(con) is DisjointUnion:
+                    (j,) = [i for i, q in enumerate(parts) if q is not None]
+                    items.append(f"{j}:{ids[j][str(parts[j])]}")
+                else:
+                    items.append(".".join(str(ids[j][str(q)]) for j, q in enumerate(parts)))
+            ents.append(".".join(map(str, key)) + "=" + ",".join(items))
+            o["nobj"] = o.get("nobj", 0) + len(objs)
+        py.append("/".join(ents) or "-")
+    o["expect"] = " | ".join(py)
+    return o
+
+
+def objgen_worker(args):
+    seed, count, N = args
+    rnd = random.Random(seed)
+    specrun.quiet()
+    res = []
+    for c, mode in rulecheck.classes(rnd, count, products=(seed % 2 == 0)):
+        for s in rulecheck.strategies(mode):
+            try:
+                rule = s(c)
+            except StrategyDoesNotApply:
+                continue
+            for name, r in rulecheck.forms(rule):
+                if name not in ("plain", "equiv") or r.comb_class.is_empty():
+                    continue
+                try:
+                    o = objgen_eval(name, r, N)
+                except NotImplementedError:
+                    continue
+                except Exception as exc:  # noqa: BLE001
+                    o = {"form": name, "rule": f"{type(r).__name__} {r.comb_class!r} -> {r.children!r} via {r.strategy!r}",
+                         "exc": specrun.exc_info(exc), "kind": "?"}
+                if o is not None:
+                    o["desc"] = {"class": c.to_jsonable(), "sw": isinstance(c, upword.SW), "mode": mode, "strategy": type(s).__name__, "form": name}
+                    res.append(o)
+    return res
+
+
 def run(tier, seed, factor=1):
     res = common.Result("C07")
     res.rule = ("(a) real searches as in C01 (object-capable universe): for every class of every returned specification and n <= N the "
@@ -255,6 +336,25 @@ def run(tier, seed, factor=1):
             if lean[k].replace(" ", "") != o["expect"].replace(" ", ""):
                 res.diff("equivalence path maps vs Lean composition of the steps", {"rule": o["rule"]}, lean[k][:300], o["expect"][:300])
             k += 1
+    # (c) object generation of single union / product rules against the Lean model
+    jobs = [(seed * 1409 + i, per, N) for i in range(common.scale(tier, 48, 300) * factor)]
+    gouts = [o for part in specrun.pool_map(objgen_worker, jobs) for o in part]
+    specrun.quiet()
+    glines = [o["line"] for o in gouts if "line" in o]
+    glean = common.run_driver("ObjGen", "\n".join(glines) + "\n") if glines else []
+    assert len(glean) == len(glines)
+    k = 0
+    for o in gouts:
+        res.case(("objgen", o["rule"], o["form"]), nontrivial=o.get("nobj", 0) >= 1)
+        res.dist[f"objgen {o['kind']} form={o['form']}"] += 1
+        res.traces += 1
+        if "exc" in o:
+            res.fail("object-generation-of-a-rule-raises", {"rule": o["rule"], "form": o["form"], "desc": o.get("desc")}, o["exc"])
+            continue
+        if glean[k] != o["expect"]:
+            res.diff("rule.get_objects vs Lean model of get_sub_objects (ObjGen)", {"rule": o["rule"], "form": o["form"], "desc": o.get("desc")},
+                     glean[k][:400], o["expect"][:400])
+        k += 1
     return res
 
 
